@@ -75,7 +75,7 @@ static void poly_build_anchors(void) {
 }
 
 // ---- shapes: templates in units of the cell edge (x = east, y = north), irrational-ish offsets
-#define POLY_NSHAPES 13
+#define POLY_NSHAPES 14
 static const double PT[][8][2] = {
     {{-1.31, -1.07}, {1.43, -0.93}, {0.11, 1.77}},                                                      // 0 triangle
     {{-2.13, -2.21}, {2.37, -2.09}, {2.19, 2.33}, {-2.41, 2.07}},                                       // 1 quadrilateral
@@ -83,8 +83,9 @@ static const double PT[][8][2] = {
     {{-7.3, -6.9}, {7.1, -7.2}, {8.2, 0.3}, {6.9, 7.4}, {-0.2, 5.1}, {-7.4, 7.2}, {-5.1, 0.1}},         // 3 concave 7-gon
     {{-6.1, -0.13}, {6.3, -0.21}, {6.2, 0.17}, {-6.25, 0.22}},                                          // 4 needle 30:1
     {{-0.21, -0.17}, {0.23, -0.19}, {0.03, 0.27}},                                                      // 5 sub-cell triangle
+    {{-3.1, -3.2}, {3.3, -3.05}, {3.15, 3.1}, {0.27, 3.2}, {0.21, -1.55}, {-0.19, -1.63}, {-0.24, 3.15}, {-3.2, 3.25}},  // 6 square with a deep narrow slit
 };
-static const int PTN[] = {3, 4, 6, 7, 4, 3};
+static const int PTN[] = {3, 4, 6, 7, 4, 3, 8};
 // holes are clockwise, in the same units, given with a scale factor relative to the outer shape
 static const double PH[][4][2] = {
     {{-0.9, -0.8}, {-1.0, 0.9}, {0.8, 1.0}, {0.9, -0.7}},     // central hole
@@ -106,6 +107,7 @@ static const struct {
     {3, 1, {2, 0}, 1.0},  // 10 7-gon + hole smaller than a cell
     {1, 2, {3, 4}, 2.0},  // 11 quad + diagonal sliver hole + small hole inside the sliver's bounding box (hole order: sliver first)
     {1, 2, {4, 3}, 2.0},  // 12 the same two holes in the other order
+    {6, 0, {0, 0}, 1},    // 13 square with a deep narrow slit (a notch much narrower than the polygon)
 };
 static const double PSCALE[4] = {0.37, 1.0, 2.7, 9.0};
 // cell-derived shapes (C15): shape POLY_NSHAPES+k = a small quadrilateral sitting on corner k (0..5) of the cell that contains the anchor at
